@@ -479,6 +479,11 @@ func (cs *clientStream) doHttpCall(transport http.RoundTripper, req *http.Reques
 		var sz int32
 		sz, rErr = readSizePreface(reply.Body)
 		if rErr != nil {
+			if rErr == io.EOF {
+				// the body ended without the final trailer message, so the
+				// outcome of the call is unknown: never report that as success
+				rErr = io.ErrUnexpectedEOF
+			}
 			return
 		}
 		if sz < 0 {
